@@ -207,6 +207,13 @@ BATTERIES['Utils'] = [
   ('sustainment_matrix', 'List.concat (map (fun s => List.concat (map (fun l => enc_m (@M@.sustainment_matrix_gen s l)) [0%nat; 1%nat; 2%nat; 4%nat])) [1; 1#2; 3#4; 0; 2])'),
   ('base_soc', 'List.concat (map (fun s => enc_v (@M@.base_soc_gen (5#2) s 4) ++ enc_v (@M@.base_soc_gen (-1) s 1) ++ enc_v (@M@.base_soc_gen 3 s 0)) [1; 1#2; 3#4])'),
   ('soc', 'List.concat (map (fun se => List.concat (map (fun r => enc_v (@M@.soc_gen r (fst se) (snd se))) [va; vb; vc; [-3; 2; -3; 0; 1]; [1#2]; []])) [(1, 1); (1#2, 3#4); (3#4, 1#2); (1, 1#2); (1#2, -2)])'),
+  ('project', 'let pcs := [Build_projcall va va cube3 []; Build_projcall vb vc cube3b [Build_con true (fun x => vsum x - 1) None]] in '
+              'enc_s (match so_ftol (@M@.project_defaults_gen (A:=Q)) with Some v => v | None => -1 end) ++ [inject_Z (match so_maxiter (@M@.project_defaults_gen (A:=Q)) with Some v => v | None => (-1)%Z end)] ++ '
+              'enc_b (match so_disp (@M@.project_options_gen (A:=Q) (Build_sopts None (Some 7%Z) (Some true))) with Some b => b | None => false end) ++ '
+              '[inject_Z (match so_maxiter (@M@.project_options_gen (A:=Q) (Build_sopts None (Some 7%Z) (Some true))) with Some v => v | None => (-1)%Z end)] ++ '
+              'List.concat (map (fun pc => List.concat (map (fun x => enc_s (pb_fun (@M@.project_problem_gen pc) x) ++ enc_v (pb_jac (@M@.project_problem_gen pc) x)) [va; vb; vc; vd]) ++ '
+              'enc_v (pb_x0 (@M@.project_problem_gen pc)) ++ enc_cube (pb_bounds (@M@.project_problem_gen pc)) ++ enc_n (List.length (pb_cons (@M@.project_problem_gen pc))) ++ '
+              'enc_v (o_x (@M@.project_gen (fun pb => Build_optresult true 0%Z (pb_jac pb (pb_x0 pb))) pc))) pcs)'),
 ]
 LOADERS = '''
 From Coq Require Import String.
